@@ -72,6 +72,36 @@ def run_case(ci):
             for pair in ((2.0, 0.5), [2.0, 0.5]):
                 r3 = getattr(nds, c['cls'])(ft, **kw)(x0, pair)
                 tuple_ok = tuple_ok and np.shape(r3) == np.shape(r1) and bool(np.array_equal(np.asarray(r3), np.asarray(r1), equal_nan=True))
+            # a keyword of f that happens to be called `step` is f's keyword
+            fstep = lambda x, s=1.0, t=0.0, step=1.0: f(x, s * step, t)
+            r4 = getattr(nds, c['cls'])(fstep, **kw)(x0, 1.0, t=0.5, step=2.0)
+            tuple_ok = tuple_ok and np.shape(r4) == np.shape(r1) and bool(np.array_equal(np.asarray(r4), np.asarray(r1), equal_nan=True))
+            # two overlapping calls of ONE object from two threads with different extra arguments
+            import threading
+            bar, res_t, seen_t = threading.Barrier(2, timeout=60), {}, {}
+
+            def fthr(x, s=1.0, tag=None):
+                if tag is not None and tag not in seen_t:
+                    seen_t[tag] = True
+                    try:
+                        bar.wait()
+                    except threading.BrokenBarrierError:
+                        pass
+                return f(x, s, 0.0)
+            shared_obj = getattr(nds, c['cls'])(fthr, **kw)
+
+            def work(tag, s_):
+                try:
+                    res_t[tag] = np.array(shared_obj(x0, s_, tag), copy=True)
+                except Exception as ex_:
+                    res_t[tag] = ex_
+            ths = [threading.Thread(target=work, args=('a', 2.0)), threading.Thread(target=work, args=('b', -1.5))]
+            for th in ths:
+                th.start()
+            for th in ths:
+                th.join(120)
+            seq_t = [np.asarray(getattr(nds, c['cls'])(fthr, **kw)(x0, s_)) for s_ in (2.0, -1.5)]
+            tuple_ok = tuple_ok and all(isinstance(res_t.get(k_), np.ndarray) and np.array_equal(res_t[k_], q_, equal_nan=True) for k_, q_ in zip(('a', 'b'), seq_t))
         del evals[:]
         evals.extend(second)
     except Exception as ex:
@@ -196,7 +226,7 @@ def run(tier, rep):
         if not o['tok']:
             rep.violation('args-not-forwarded', dict(case=name), '%s: extra arguments did not reach f unchanged on every evaluation' % name)
         if not o.get('tuple_ok', True):
-            rep.violation('args-tuple', dict(case=name), '%s: a single extra argument whose value is a tuple / list did not reach f as one argument (result differs from passing its two members separately)' % name)
+            rep.violation('args-tuple', dict(case=name), '%s: extra arguments did not reach f as given: a tuple / list valued argument, a keyword of f named `step`, or the arguments of two overlapping calls of one object from two threads' % name)
         if o['outside']:
             rep.violation('outside-box:%s' % c['place'], dict(case=name, point=o['worst']), '%s: %d evaluation(s) left the box, e.g. %s' % (name, o['outside'], o['worst']))
         if c['place'] == 'nobounds':
